@@ -359,6 +359,40 @@ def routing_edges(seed: int, n: int) -> List[List[dict]]:
     return out
 
 
+def dynamic_double_wrap(seed: int, n: int) -> List[List[dict]]:
+    """the dynamic-id counter wraps twice while two long-lived dynamic modules stay connected, the one with the HIGHER id being the
+    OLDER connection: every id handed out is one that no live module holds"""
+    out = []
+    for keep_first in (True, False):
+        b = monitor_setup()
+        W0 = ["c"]
+        k = [0]
+
+        def cycle(stay=None):
+            name = stay or f"t{k[0]}"
+            k[0] += 1
+            w = W0 + [name]
+            steps = [opn(name), rnd(name), snd(name, con(0)), rnd("", [name], w)]
+            if not stay:
+                steps += [snd(name, sig(14, 0)), rnd("", [name], w)]
+            return steps
+        b += cycle()                       # 100, leaves
+        b += cycle(stay="x")               # 101 stays (the OLDER of the two long-lived modules)
+        W0.append("x")
+        for _ in range(98):
+            b += cycle()                   # 102 .. 199, each leaves
+        b += cycle(stay="y")               # counter wrapped: 100 stays
+        W0.append("y")
+        if not keep_first:
+            b += [snd("x", sig(14, 0)), rnd("", ["x"], W0)]
+        for _ in range(99):
+            b += cycle()                   # second turn: every candidate is compared with the live ids
+        b += cycle(stay="z")
+        b += cycle(stay="w")
+        out.append(b)
+    return out
+
+
 def drops_with_logging(seed: int, n: int) -> List[List[dict]]:
     """receivers of a data type AND of the manager's own log messages (subscribed type by type, or to all types), one of them
     not writable while a publisher sends: whatever the manager logs about the drop is a message like any other - every two
